@@ -185,6 +185,28 @@ bool ArgumentContainer::hasArgument( const ArgumentKey& key) const
 } // ArgumentContainer::hasArgument
 
 
+
+/// Checks that the given key does not collide with the key of an argument
+/// that is stored here.
+///
+/// @param[in]  key  The key of the argument that should be added elsewhere.
+/// @throw  std::invalid_argument if the key collides with a stored key.
+/// @since  x.y.z, 02.10.2026
+void ArgumentContainer::checkKeyUnused( const ArgumentKey& key) const
+{
+
+   for (auto const& argi : mArguments)
+   {
+      if ((argi.key() == key) || argi.key().mismatch( key))
+         throw invalid_argument( "Argument '" + format::toString( key)
+                                 + "' collides with the argument '"
+                                 + format::toString( argi.key())
+                                 + "' of the same handler");
+   } // end for
+
+} // ArgumentContainer::checkKeyUnused
+
+
 /// Specifies the line length to use when printing the usage.<br>
 /// Used when this container is used to store te sub-group arguments.
 /// @param[in]  useLen  The new line length to use.<br>
